@@ -1272,6 +1272,51 @@ func iohelpDrain(c *core.Ctx, p *load.Prog, rule string, latch bool) {
 	})
 	c.Check(rule, "Drain never reaches below the length limiter", f.pos(), bypass == "",
 		bypass+": bytes taken (or skipped) below an io.LimitedReader are not counted against it, nor against the limiters of the enclosing records, which then drain into the data that follows")
+	// the tail is taken with something that absorbs short reads (io.Copy,
+	// io.CopyN, io.ReadFull, io.ReadAll, the wrapper's own Read) or in a loop: a
+	// single Read on a stream may deliver fewer bytes than asked without that
+	// being an error, and what it leaves behind is then read as the next record
+	single := ""
+	for _, g := range f.closure() {
+		if g != f && g.fd.Name.IsExported() && g.name != "ErrorReader.Read" {
+			continue
+		}
+		var stack []ast.Node
+		ast.Inspect(g.fd.Body, func(n ast.Node) bool {
+			if n == nil {
+				stack = stack[:len(stack)-1]
+				return true
+			}
+			stack = append(stack, n)
+			call, ok := n.(*ast.CallExpr)
+			if !ok {
+				return true
+			}
+			sel, ok := ast.Unparen(call.Fun).(*ast.SelectorExpr)
+			if !ok || sel.Sel.Name != "Read" || len(call.Args) != 1 {
+				return true
+			}
+			t := g.info.TypeOf(sel.X)
+			if t == nil || strings.HasSuffix(t.String(), "iohelp.ErrorReader") {
+				return true
+			}
+			if _, isSig := g.info.TypeOf(sel).(*types.Signature); !isSig {
+				return true
+			}
+			inLoop := false
+			for _, a := range stack {
+				if _, isFor := a.(*ast.ForStmt); isFor {
+					inLoop = true
+				}
+			}
+			if !inLoop {
+				single = g.name + " calls " + wire.Canon(sel) + " once at " + f.p.Pos(call.Pos())
+			}
+			return true
+		})
+	}
+	c.Check(rule, "Drain takes the tail with a read that absorbs short reads", f.pos(), single == "",
+		single+": a single Read may return fewer bytes than the region still holds (a socket, a pipe, any fragmenting reader) without an error; the rest of the unknown fields is left on the stream and decoded as whatever follows")
 	c.Check(rule, "a loop in Drain ends exactly when a read fails", f.pos(), loopOK,
 		"Drain loops by hand and leaves the loop on something other than `err != nil` (a short read is not the end of the data; a non-EOF error that never turns into EOF must still end the loop)")
 	if !latch {
